@@ -826,12 +826,29 @@ class Interp(StmtMixin):
         items_of = None
         if isinstance(it_expr, ast.Call) and isinstance(it_expr.func, ast.Attribute) and it_expr.func.attr == "items" and not it_expr.args:
             items_of = it_expr.func.value
-        for st1, it in self.ev(items_of if items_of is not None else it_expr, st):
+        zip_args = None
+        if isinstance(it_expr, ast.Call) and isinstance(it_expr.func, ast.Name) and it_expr.func.id == "zip" and len(it_expr.args) == 2:
+            zip_args = it_expr.args
+        first_expr = items_of if items_of is not None else (ast.Tuple(elts=list(zip_args), ctx=ast.Load()) if zip_args else it_expr)
+        for st1, it in self.ev(first_expr, st):
             if isinstance(it, Raise):
                 yield st1, it
                 continue
             i = fresh_const("di", I)
-            if items_of is not None:
+            if zip_args:
+                def as_seq(v):
+                    if is_ref(v.ty) and v.ty[1].startswith("dict_"):
+                        return self.read_field(st1, v, v.ty[1], "keys")
+                    return self.seq_of(st1, v)
+                sa, sb = as_seq(it.py[0]), as_seq(it.py[1])
+                la, lb = z3.Length(sa.t), z3.Length(sb.t)
+                n = z3.If(la <= lb, la, lb)
+                s2 = st1.assume(z3.And(i >= 0, i < n))
+                if not (isinstance(g.target, ast.Tuple) and len(g.target.elts) == 2):
+                    raise Unsupported("zip target")
+                s2.env[g.target.elts[0].id] = Val(sa.t[i], sa.ty[1])
+                s2.env[g.target.elts[1].id] = Val(sb.t[i], sb.ty[1])
+            elif items_of is not None:
                 if not (is_ref(it.ty) and it.ty[1].startswith("dict_")):
                     raise Unsupported("items() of a non-dict")
                 ks = self.read_field(st1, it, it.ty[1], "keys")
@@ -868,7 +885,18 @@ class Interp(StmtMixin):
                         z3.ForAll([i, j], z3.Implies(z3.And(rng, j >= 0, j < n, i != j), kv.t != kj)), getattr(e, "lineno", None))
             s3 = st1.assume(z3.Length(rk) == n)
             s3 = s3.assume(z3.ForAll([i], z3.Implies(rng, z3.And(rk[i] == kv.t, z3.Select(rm, kv.t) == vv.t)), patterns=[rk[i]]))
-            yield s3, Val(None, "dictval", (Val(rk, ("seq", kv.ty)), Val(rm, ("map", kv.ty, vv.ty if not is_ref(vv.ty) else "int"))))
+            # the new dict is a fresh heap object
+            vcls = "dict_str_str" if (kv.ty == "str" and vv.ty == "str") else ("dict_str_ref" if kv.ty == "str" and (is_ref(vv.ty) or vv.ty == "int") else None)
+            if vcls is None:
+                raise Unsupported(f"dict comprehension of {kv.ty} -> {vv.ty}")
+            d = self.alloc(s3, vcls)
+            saved, self.spec_mode = self.spec_mode, 1       # initialising writes to the fresh object: no frame obligation needed
+            try:
+                self.write_field(s3, d, vcls, "keys", Val(rk, ("seq", "str")), getattr(e, "lineno", None))
+                self.write_field(s3, d, vcls, "map", Val(rm, models.CLASSES[vcls]["fields"]["map"]), getattr(e, "lineno", None))
+            finally:
+                self.spec_mode = saved
+            yield s3, d
 
     def ev_SetComp(self, e, st):
         # a set is modelled by a sequence of its members in an arbitrary order (membership semantics only)
